@@ -34,6 +34,10 @@ def templates(n, m='m2'):
     out.append(('nested-identical-tuple-repeat', doc(P('0'), {'tag': 'x', 'indent': 2, 'repeat': [[n, 'zz'], py('pairs')], 'children': [
         P('1'), {'tag': 'y', 'indent': 4, 'repeat': [[n, 'zz'], py('pairs')], 'children': [P('2')]}, P('3')]}, P('4')),
         [[n, 'maybe3', 0], ['pairs', 'iter:pairs', 1]]))
+    # a lambda parameter is local to the lambda: a template variable of that name stays visible afterwards
+    out.append(('lambda-parameter', doc(P('0'), {'tag': 'x', 'define': [['local', 'fn', py('lambda %s: 1' % n)]],
+                                                 'children': [{'interp': py('fn(0)')}, P('1')]}, P('2')),
+                [[n, 'maybe3', 0]]))
     out.append(('repeat', doc(P('0'), {'tag': 'x', 'indent': 2, 'repeat': [n, py('seq')], 'children': [P('1')]},
                               P('2')),
                 [[n, 'maybe3', 0], ['seq', 'lenN', 1]]))
@@ -109,7 +113,7 @@ def plan(tier, seed):
     names = POOL if not quick else POOL[:6]
     for n in names:
         for label, prog, vars_ in templates(n):
-            if quick and n not in ('a', 'len') and label not in ('nested-local', 'repeat', 'global', 'nested-identical-define', 'nested-identical-tuple-repeat'):
+            if quick and n not in ('a', 'len') and label not in ('nested-local', 'repeat', 'global', 'nested-identical-define', 'nested-identical-tuple-repeat', 'lambda-parameter'):
                 continue
             jobs.append({'prog': prog, 'vars': vars_, 'label': '%s:%s' % (n, label)})
     mut = {'prog': templates('a')[0][1], 'vars': templates('a')[0][2]}
